@@ -138,7 +138,10 @@ class TableIndex:
                     array_index[0] == ...
                 )
             ) or \
-            all(isinstance(i, slice) or i == ... for i in array_index)
+            (
+                len(array_index) > 0 and
+                all(isinstance(i, slice) or i == ... for i in array_index)
+            )
         ):
             return self
         
